@@ -151,6 +151,14 @@ func driveC08(p *Pool, r *evid.Run) {
 		}
 		ex(slow, b)
 		r.Set("slow_roles_"+pl.src, probe[0].Roles)
+		if pl.src == "small" || pl.src == "mid" {
+			// a stream without any buffer (capacity 0): every send waits until the peer has taken the packet
+			var rv []Scn
+			for _, pol := range []string{"run", "rr", "recv", "send"} {
+				rv = append(rv, Scn{Kind: "xfer", Src: pl.src, Dst: pl.dst, Cap: 1, Policy: pol, Notify: true, SelectAlts: true, Progress: true, Rendezvous: true})
+			}
+			ex(rv, 1)
+		}
 		if pl.src == "small" {
 			// a wide transfer (700 files: more than any window of announced entries a sender could keep) under the
 			// same slow-site policies and the ordinary ones: a request may come arbitrarily long after its STAT
